@@ -984,7 +984,8 @@ class SymCtx:
         self.inputs = {}       # name -> ("real", lo, hi, grid) | ("choice", n)
         self.order = []
         self.regions = []      # (id, z3 term)
-        self.known_regions = set(known_regions)
+        # region id -> None (the finding explains any obligation inside the region) or a list of label substrings it explains
+        self.known_regions = dict(known_regions) if isinstance(known_regions, dict) else {r: None for r in known_regions}
         self.candidates = []   # dicts
         self.notes = {}
         self.checked = 0
@@ -1107,7 +1108,7 @@ class SymCtx:
         self.checked += 1
         ex = self.ex
         if robust is not None and not isinstance(robust, (bool, _np.bool_)) and not isinstance(cond, (bool, _np.bool_)):
-            known0 = [t for rid, t in self.regions if rid in self.known_regions]
+            known0 = [t for rid, t in self.regions if self._explains(rid, label)]
             r0, m0 = self._find_model([z3.Not(robust.t)] + [z3.Not(t) for t in known0])
             if r0 == "sat":
                 self.candidates.append({"label": label, "region": None, "inputs": self.input_model(m0)})
@@ -1119,7 +1120,7 @@ class SymCtx:
         else:
             neg = z3.Not(cond.t)
             pos = cond.t
-        known = [t for rid, t in self.regions if rid in self.known_regions]
+        known = [t for rid, t in self.regions if self._explains(rid, label)]
         outside = [z3.Not(t) for t in known]
         r, m = self._find_model([neg] + outside)
         if ex.xcheck_budget > 0 and r in ("sat", "unsat"):
@@ -1157,7 +1158,7 @@ class SymCtx:
         elif r == "unknown":
             self.unknown += 1
         for rid, t in self.regions:
-            if rid not in self.known_regions:
+            if not self._explains(rid, label):
                 continue
             r, m = self._find_model([neg, t])
             if r == "sat":
@@ -1167,6 +1168,13 @@ class SymCtx:
         if pos is None:
             return      # constant-false obligation: recorded above, nothing to assume
         ex.assume(pos)
+
+    def _explains(self, rid, label):
+        """is `rid` the region of a recorded finding that explains a failure of obligation `label`?"""
+        if rid not in self.known_regions:
+            return False
+        labs = self.known_regions[rid]
+        return labs is None or any(x in label for x in labs)
 
     def fail(self, label):
         """The code under test raised / misbehaved on this (feasible) path."""
